@@ -302,6 +302,7 @@ class Actor:
         self.ntok = 0
         self.tokhash = 0
         self.sw_steps = []
+        self.in_nested = False
         self.nest = None  # same-thread nesting plan of the current op
         self.nest_out = None
         self.runner = None
@@ -356,7 +357,16 @@ def make_sim_lexer(world, actor):
                 # driver) and comes back - no second thread involved
                 a.nest = None
                 world.nested_calls += 1
-                a.nest_out = a.runner._run_inner(nest["ops"])
+                a.in_nested = True
+                try:
+                    a.nest_out = a.runner._run_inner(nest["ops"])
+                except simsync.NestInfeasible:
+                    # the inner call would wait for a lock its own outer call holds:
+                    # not a schedulable interleaving; the inner call is made afterwards
+                    a.nest_out = None
+                    world.fired["nest-infeasible-lock"] = world.fired.get("nest-infeasible-lock", 0) + 1
+                finally:
+                    a.in_nested = False
             tok = base.token(self)
             world.log_token(a, self, tok)
             return tok
